@@ -433,6 +433,81 @@ func (c *c15Rig) attachDetach() {
 	c.verifyLedger("attach/detach")
 }
 
+// mixedAttachBatch sends one attach request with two attachments, one signed
+// by the pool's key and one (for a stranger's account onto somebody else's
+// funded pool) signed by the stranger: an attachment takes effect only with a
+// valid signature by the right key, whatever else is in the request.
+func (c *c15Rig) mixedAttachBatch() {
+	e := c.e
+	e.Step()
+	ctx := context.Background()
+	ak, acct := c.newAccount()
+	pk, pool := c.newAccount()
+	sk, stranger := c.newAccount()
+	vk, victimPool := c.newAccount()
+	xk, _ := c.newAccount() // a pool key of the stranger's own
+	_, _ = ak, vk
+	c.m.acct[acct], c.m.acct[stranger] = types.ZeroCurrency, types.ZeroCurrency
+	c.m.pool[pool], c.m.pool[victimPool] = types.ZeroCurrency, types.ZeroCurrency
+	cost := c.prices.RPCVerifySectorCost().RenterCost()
+	c.credit("replenish-pools", []proto4.Account{pool, victimPool}, nil, cost.Mul64(3))
+	badFirst := e.Chance(1, 2)
+	c.hook = func(_ int, id types.Specifier, step int, st simrhp.Step, o proto4.Object, raw []byte) simrhp.Action {
+		req, ok := o.(*proto4.RPCAttachPoolsRequest)
+		if !ok || raw != nil || len(req.Attachments) != 2 {
+			return simrhp.Pass
+		}
+		// the second input names a pool of the stranger's own: make it name the
+		// victim's pool, still signed with the stranger's pool key
+		i := 1
+		if badFirst {
+			req.Attachments[0], req.Attachments[1] = req.Attachments[1], req.Attachments[0]
+			i = 0
+		}
+		a := &req.Attachments[i]
+		a.Pool = victimPool
+		a.Signature = xk.SignHash(a.SigHash(c.hostKey.PublicKey()))
+		return simrhp.Pass
+	}
+	var err error
+	e.Guard("C15.panic", "RPCAttachPools", func() {
+		err = rhp4.RPCAttachPools(ctx, c.tr, []rhp4.PoolAttachInput{{Account: acct, PoolKey: pk}, {Account: stranger, PoolKey: xk}}, time.Minute)
+	})
+	c.hook = nil
+	waitQuiet()
+	e.Logf("attach batch {valid, stranger onto a funded pool} (bad one first: %v) -> err=%v", badFirst, err)
+	e.Shape("attach-batch-mixed", fmt.Sprint(badFirst), fmt.Sprint(err != nil))
+	e.Fault("attach-batch-with-one-bad-signature")
+	if err == nil {
+		// the good one may have taken effect; the bad one must not have
+		c.m.attached[acct] = append(c.m.attached[acct], pool)
+	}
+	// the stranger cannot draw on the victim's pool
+	n0 := len(c.contractor.calls)
+	var verr error
+	e.Guard("C15.panic", "RPCVerifySector", func() { _, verr = rhp4.RPCVerifySector(ctx, c.tr, c.prices, c.token(sk), c.stored[0]) })
+	waitQuiet()
+	for _, call := range c.contractor.calls[n0:] {
+		if call.method == "DebitAccount" && call.err == nil {
+			e.Violationf("C15.attach-authorisation", "batch:stranger-draws", "an attach request holding one valid attachment and one signed by a stranger (err=%v) let the stranger's account pay %v from a pool it holds no key of (verify err=%v)", err, cost, verr)
+		}
+	}
+	c.seenCall = len(c.contractor.calls)
+	if err != nil {
+		// refused as a whole: the good one is not attached either
+		n1 := len(c.contractor.calls)
+		e.Guard("C15.panic", "RPCVerifySector", func() { _, verr = rhp4.RPCVerifySector(ctx, c.tr, c.prices, c.token(ak), c.stored[0]) })
+		waitQuiet()
+		for _, call := range c.contractor.calls[n1:] {
+			if call.method == "DebitAccount" && call.err == nil {
+				e.Violationf("C15.attach-authorisation", "batch:refused-yet-attached", "an attach request that was refused (%v) attached its valid entry all the same", err)
+			}
+		}
+		c.seenCall = len(c.contractor.calls)
+	}
+	c.verifyLedger("mixed attach batch")
+}
+
 // pipelinedReplenish puts two replenish requests for the same account on the
 // same contract to a host whose contract lock waits for its holder: the second
 // arrives while the first is waiting for the renter's signature, signed
@@ -644,7 +719,9 @@ func runC15(e *sim.Env) {
 	}
 	steps := e.Range(8, 24)
 	for i := 0; i < steps; i++ {
-		switch e.Pick(2, 3, 2, 3, 3, 2, 2, 1, 1) {
+		switch e.Pick(2, 3, 2, 3, 3, 2, 2, 1, 1, 1) {
+		case 9:
+			c.mixedAttachBatch()
 		case 8:
 			c.pipelinedReplenish()
 		case 7:
@@ -709,7 +786,7 @@ var _ = sim.NewEnv
 func init() {
 	register(&Prop{
 		ID: "C15", Run: runC15, Quick: 900, Thorough: 8000, Level: "exploration",
-		Rule:        "one run = a formed contract and 8-24 drawn operations over several accounts and pools: fund, replenish accounts / pools (lists with repeated entries and entries already above the target; two replenish requests for one account pipelined at a host whose contract lock waits for its holder), attach (valid, signed by the account key, by a stranger, expired, flipped signature) and detach (account key, pool key, stranger), several funded pools attached to one account (one request or several), one of them detached again at a drawn position, then verifications until the funds run out, and read / write (1 in 4 with the upload cut half-way or before its first byte: no debit, nothing stored) / verify with the drawable funds (own balance, optionally split with an attached pool, which in half of those cases is attached a second time) at cost-1H, cost and cost+1H and with sectors the host does not store; every Credit*/DebitAccount call and every sector-store call is recorded with the global event number; oracles: credits equal the value the accompanying renter-signed revision moves, debits equal the priced cost (core's functions) and precede the sector access, no debit without service and no service without debit, insufficient funds deliver nothing / store nothing / debit nothing, replenish ends at max(before, target), attach/detach only with the right signature before expiry, and after every step every account and pool balance the host reports equals the model ledger; distinct = abstract trace; all runs non-trivial once a service RPC ran",
+		Rule:        "one run = a formed contract and 8-24 drawn operations over several accounts and pools: fund, replenish accounts / pools (lists with repeated entries and entries already above the target; two replenish requests for one account pipelined at a host whose contract lock waits for its holder), attach (valid, signed by the account key, by a stranger, expired, flipped signature; one request with a valid attachment and a stranger's onto a funded pool) and detach (account key, pool key, stranger), several funded pools attached to one account (one request or several), one of them detached again at a drawn position, then verifications until the funds run out, and read / write (1 in 4 with the upload cut half-way or before its first byte: no debit, nothing stored) / verify with the drawable funds (own balance, optionally split with an attached pool, which in half of those cases is attached a second time) at cost-1H, cost and cost+1H and with sectors the host does not store; every Credit*/DebitAccount call and every sector-store call is recorded with the global event number; oracles: credits equal the value the accompanying renter-signed revision moves, debits equal the priced cost (core's functions) and precede the sector access, no debit without service and no service without debit, insufficient funds deliver nothing / store nothing / debit nothing, replenish ends at max(before, target), attach/detach only with the right signature before expiry, and after every step every account and pool balance the host reports equals the model ledger; distinct = abstract trace; all runs non-trivial once a service RPC ran",
 		Real:        []string{"rhp4.Server", "rhp4 RPC* client functions", "testutil.EphemeralContractor (accounts, pools, attachments) / EphemeralSectorStore behind recording wrappers", "wallets, chain.Manager"},
 		Stub:        []string{"transport: simrhp in-memory streams with typed relay", "disk: simdisk.DB"},
 		Assumptions: []string{"no fault is injected into the sector store: a host-side disk error after a legitimate debit is outside the statement"},
